@@ -60,6 +60,8 @@ public:
     explicit World(eng::engine_schema schema);
     // on-disk library: create (mode 0) or load (mode 1) in `dir`
     World(eng::engine_schema schema, const std::string& dir, int mode);
+    /// adopts a database obtained by the caller through some other public path (handle = its captured connection)
+    World(eng::engine_schema schema, dj::database adopted, sqlite3* h);
     ~World();
     World(const World&) = delete;
 
